@@ -145,9 +145,16 @@ int32_t psCheckValidationResult(ssl_t *ssl,
         psX509Cert_t *leaf)
 {
     psX509Cert_t *cert = leaf;
+    int32_t chainErr = ssl->err;
 
     while (cert)
     {
+        /* certificate_expired has the lowest priority: any other failure in
+           the chain replaces it (as within one certificate, see
+           psX509AuthenticateCert), so that an application which tolerates
+           expiry is never told "expired" about a chain that is also
+           untrusted or wrongly signed */
+        ssl->err = SSL_ALERT_NONE;
         switch (cert->authStatus)
         {
         case PS_CERT_AUTH_FAIL_SIG:
@@ -163,7 +170,10 @@ int32_t psCheckValidationResult(ssl_t *ssl,
         case PS_CERT_AUTH_FAIL_EXTENSION:
             /* The math and basic constraints matched.  This case is
                 for X.509 extension mayhem */
-            if (cert->authFailFlags & PS_CERT_AUTH_FAIL_DATE_FLAG)
+            if ((cert->authFailFlags & PS_CERT_AUTH_FAIL_DATE_FLAG) &&
+                !(cert->authFailFlags & (PS_CERT_AUTH_FAIL_SUBJECT_FLAG |
+                        PS_CERT_AUTH_FAIL_KEY_USAGE_FLAG |
+                        PS_CERT_AUTH_FAIL_EKU_FLAG)))
             {
                 ssl->err = SSL_ALERT_CERTIFICATE_EXPIRED;
             }
@@ -207,8 +217,16 @@ int32_t psCheckValidationResult(ssl_t *ssl,
         default:
             break;
         }
+        if (ssl->err != SSL_ALERT_NONE &&
+            (chainErr == SSL_ALERT_NONE ||
+             (chainErr == SSL_ALERT_CERTIFICATE_EXPIRED &&
+              ssl->err != SSL_ALERT_CERTIFICATE_EXPIRED)))
+        {
+            chainErr = ssl->err;
+        }
         cert = cert->next;
     }
+    ssl->err = chainErr;
 
     if (ssl->err == SSL_ALERT_NONE)
     {
